@@ -34,10 +34,11 @@ def ty_range(ty):
 class V:
     """integer value: concrete (c is an int) or symbolic SMT term with interval bounds and known
     divisibility by 2^tz"""
-    __slots__ = ("c", "smt", "lo", "hi", "tz", "bv")
+    __slots__ = ("c", "smt", "lo", "hi", "tz", "bv", "lin")
 
-    def __init__(self, c=None, smt=None, lo=None, hi=None, tz=0, bv=None):
+    def __init__(self, c=None, smt=None, lo=None, hi=None, tz=0, bv=None, lin=None):
         self.c, self.smt, self.lo, self.hi, self.tz, self.bv = c, smt, lo, hi, tz, bv
+        self.lin = lin     # (k, base): this value is k * base for a constant k (used to share abstract products)
         if c is not None:
             self.lo = self.hi = c
             self.smt = str(c) if c >= 0 else "(- %d)" % (-c)
@@ -88,6 +89,8 @@ class Ctx:
         self.decls = []          # SMT declarations / global constraints
         self.bvdecls = []        # the same for the bit-vector rendering (inputs only)
         self.products = {}       # (smt_a, smt_b) -> V
+        self.divisions = []      # (dividend, divisor, exact truncated quotient) of every modelled primitive division
+        self.wide_divisions = [] # (divisor, dividend hi, dividend lo, quotient hi, quotient lo) of every abstracted wide division
         self.obligations = []    # (path conditions, condition that must hold, message, function)
         self.exact_products = exact_products
         self.nfresh = 0
@@ -97,7 +100,9 @@ class Ctx:
         n = "%s_%d" % (prefix, self.nfresh)
         self.decls.append("(declare-const %s Int)" % n)
         self.decls.append("(assert (and (>= %s %s) (<= %s %s)))" % (n, lit(lo), n, lit(hi)))
-        return V(smt=n, lo=lo, hi=hi, bv=None)
+        self.bvdecls.append("(declare-const %s (_ BitVec %d))" % (n, WBV))
+        self.bvdecls.append("(assert (and (bvsge %s %s) (bvsle %s %s)))" % (n, bvlit(lo), n, bvlit(hi)))
+        return V(smt=n, lo=lo, hi=hi, bv=n)
 
     def input(self, name, ty):
         lo, hi = ty_range(ty)
@@ -134,13 +139,19 @@ class Ctx:
         if k == 1:
             return a
         lo, hi = sorted((a.lo * k, a.hi * k))
-        return V(smt="(* %s %s)" % (lit(k), a.smt), lo=lo, hi=hi, tz=a.tz + tzc(k), bv=("(bvmul %s %s)" % (bvlit(k), a.bv)) if a.bv else None)
+        k0, base = a.lin if a.lin else (1, a)
+        return V(smt="(* %s %s)" % (lit(k), a.smt), lo=lo, hi=hi, tz=a.tz + tzc(k), bv=("(bvmul %s %s)" % (bvlit(k), a.bv)) if a.bv else None,
+                 lin=(k0 * k, base))
 
     def mul(self, a, b):
         if a.is_c():
             return self.mulc(b, a.c)
         if b.is_c():
             return self.mulc(a, b.c)
+        if a.lin or b.lin:
+            ka, ba = a.lin if a.lin else (1, a)
+            kb, bb = b.lin if b.lin else (1, b)
+            return self.mulc(self.mul(ba, bb), ka * kb)
         key = tuple(sorted((a.smt, b.smt)))
         if key in self.products:
             return self.products[key]
@@ -342,6 +353,7 @@ class Exec:
         self.npaths = 0
         self.max_paths = max_paths
         self.called = set()
+        self.abstract_wide_div = False   # model WideDivRem::div_rem_from by an arbitrary 256-bit quotient
         self.watch_suffix = None   # record calls to functions whose name ends with this
         self.watched = []          # (path conditions at the call, arguments, returned value)
 
@@ -373,6 +385,9 @@ class Exec:
             m = re.match(r"(-?\d+)_(\w+)$", c)
             if m:
                 return V(c=int(m.group(1)))
+            m = re.match(r"<(\w+) as [^>]+>::(?:\w+::)*NBITS$", c)
+            if m and m.group(1) in INT_TYPES:
+                return V(c=INT_TYPES[m.group(1)][1])
             m = re.match(r"(\w+)::(MAX|MIN)$", c)
             if m and m.group(1) in INT_TYPES:
                 lo, hi = ty_range(m.group(1))
@@ -385,7 +400,7 @@ class Exec:
         m = re.match(r"_(\d+)$", s)
         if m:
             return env[int(m.group(1))]
-        m = re.match(r"\(_(\d+)\.(\d+): [^)]*\)$", s)
+        m = re.match(r"\(_(\d+)\.(\d+): .*\)$", s)
         if m:
             return env[int(m.group(1))][int(m.group(2))]
         raise Unsupported("place " + s)
@@ -395,7 +410,7 @@ class Exec:
         m = re.match(r"_(\d+)$", s)
         if m:
             return f.types[int(m.group(1))]
-        m = re.match(r"\(_(\d+)\.(\d+): ([^)]*)\)$", s)
+        m = re.match(r"\(_(\d+)\.(\d+): (.*)\)$", s)
         if m:
             return m.group(3)
         raise Unsupported("place type " + s)
@@ -464,7 +479,10 @@ class Exec:
         if op in ("Div", "Rem"):
             if b.is_c() and b.c > 0 and a.lo >= 0:
                 return c.divc(a, b.c) if op == "Div" else c.modc(a, b.c)
-            raise Unsupported("symbolic division")
+            if op == "Div":
+                # rustc guards `/` with assert terminators (divisor zero, MIN / -1), which become obligations
+                return c.wrap(self.quotient(a, b, ty), ty)
+            raise Unsupported("symbolic remainder")
         raise Unsupported("binop " + op)
 
     def rvalue(self, f, env, rv, dst_ty):
@@ -516,7 +534,25 @@ class Exec:
             return (c.wrap(ex, ty), c.out_of_range(ex, ty))
         if meth == "wrapping_neg":
             return c.wrap(c.neg(a), ty)
+        if meth in ("wrapping_div", "overflowing_div"):
+            q = self.quotient(a, b, ty)
+            if meth == "wrapping_div":
+                return c.wrap(q, ty)
+            return (c.wrap(q, ty), c.out_of_range(q, ty))
         raise Unsupported("core intrinsic %s::%s" % (ty, meth))
+
+    def quotient(self, x, y, ty):
+        """exact truncated quotient of a primitive division as an abstract integer: any value the primitive could return
+        (|q| <= |x|); the caller's obligations then hold for whatever the primitive computes.  The divisor is assumed
+        non-zero (documented panic of the fixed-point division)."""
+        c = self.ctx
+        if x.is_c() and y.is_c() and y.c != 0:
+            q = abs(x.c) // abs(y.c)
+            return V(c=q if (x.c < 0) == (y.c < 0) else -q)
+        m = max(abs(x.lo), abs(x.hi))
+        q = c.fresh("Q", -m if (x.lo < 0 or y.lo < 0) else 0, m)
+        c.divisions.append((x, y, q))
+        return q
 
     def run(self, f, args, pcs):
         """yields (path conditions, return value)"""
@@ -597,6 +633,24 @@ class Exec:
         if m:
             dst, callee, argstr, tgt = m.groups()
             args = [self.operand(f, env, a) for a in split_top(argstr)]
+            fm = re.match(r"<(\w+) as From<(\w+)>>::from$", callee.strip())
+            if fm and fm.group(1) in INT_TYPES and fm.group(2) in INT_TYPES:
+                self.store(f, env, dst, self.ctx.wrap(args[0], fm.group(1)))
+                yield from self.block(f, env, tgt, pcs)
+                return
+            wm = re.match(r"<(\w+) as (?:[\w:]+::)?WideDivRem<(\w+)>>::div_rem_from$", callee.strip())
+            if wm and self.abstract_wide_div:
+                ty_s, ty_u = wm.group(1), wm.group(2)
+                divisor, dividend = args
+                lo_s, hi_s = ty_range(ty_s)
+                lo_u, hi_u = ty_range(ty_u)
+                qh = self.ctx.fresh("QH", lo_s, hi_s)
+                ql = self.ctx.fresh("QL", lo_u, hi_u)
+                rem = self.ctx.fresh("R", lo_s, hi_s)
+                self.ctx.wide_divisions.append((divisor, dividend[0], dividend[1], qh, ql))
+                self.store(f, env, dst, ((qh, ql), rem))
+                yield from self.block(f, env, tgt, pcs)
+                return
             cm = CORE.match(callee.strip())
             if cm:
                 r = self.core_call(cm.group(1), cm.group(2), args)
@@ -627,7 +681,7 @@ class Exec:
         if m:
             env[int(m.group(1))] = val
             return
-        m = re.match(r"\(_(\d+)\.(\d+): [^)]*\)$", dst)
+        m = re.match(r"\(_(\d+)\.(\d+): .*\)$", dst)
         if m:
             i, k = int(m.group(1)), int(m.group(2))
             cur = list(env.get(i, (None, None)))
